@@ -537,3 +537,171 @@ func c18WindowInitAtomic(c *Ctx) {
 		c.Unresolved("C18.W8", "registration of a client stream in MClientConn.streams")
 	}
 }
+
+// c18EncodedBlockWritten (W10): what the connection's HPACK encoder produced reaches the wire.
+// Encoding a header list changes the encoder's dynamic table; the peer's decoder makes the same changes only when it
+// reads the block. Clause: in the methods of the M* connection types of pkg/module/http2 (MServerConn, MClientConn, MClientStream, MStream), after a call that reaches
+// (*hpack.Encoder).WriteField, every path to a return passes a HEADERS/CONTINUATION write (writeHeaders /
+// WriteHeaders / writeContinuation) - except along the error edge of that very call (the encoding helper refused the
+// list before touching the encoder) or where the encoded block was tested empty. A function that drops a block it has
+// just encoded (a size limit checked after encoding, an early return) leaves the two tables different for the rest of
+// the connection: later blocks refer to entries the peer never received.
+func c18EncodedBlockWritten(c *Ctx) {
+	pkg := "pkg/module/http2"
+	writeField := map[*ssa.Function]bool{}
+	for fn := range c.all {
+		if fn.Name() == "WriteField" && fn.Signature.Recv() != nil && strings.HasSuffix(fn.Signature.Recv().Type().String(), "hpack.Encoder") {
+			writeField[fn] = true
+		}
+	}
+	if len(writeField) == 0 {
+		c.Unresolved("C18.W10", "(*hpack.Encoder).WriteField")
+		return
+	}
+	memo := map[*ssa.Function]bool{}
+	var encodes func(f *ssa.Function, d int) bool
+	encodes = func(f *ssa.Function, d int) bool {
+		if writeField[f] {
+			return true
+		}
+		if v, ok := memo[f]; ok {
+			return v
+		}
+		memo[f] = false
+		if f == nil || len(f.Blocks) == 0 || f.Pkg == nil || !strings.HasSuffix(f.Pkg.Pkg.Path(), pkg) || d > 6 {
+			return false
+		}
+		r := false
+		forEachInstr(f, true, func(_ *ssa.Function, in ssa.Instruction) {
+			if ci, ok := in.(ssa.CallInstruction); ok {
+				if callee := ci.Common().StaticCallee(); callee != nil && encodes(callee, d+1) {
+					r = true
+				}
+			}
+		})
+		memo[f] = r
+		return r
+	}
+	isWrite := func(in ssa.Instruction) bool {
+		ci, ok := in.(*ssa.Call)
+		if !ok {
+			return false
+		}
+		switch methodName(ci.Common()) {
+		case "writeHeaders", "WriteHeaders", "writeContinuation", "WriteContinuation":
+			return true
+		}
+		return false
+	}
+	wmemo := map[*ssa.Function]bool{}
+	var writes func(f *ssa.Function, d int) bool
+	writes = func(f *ssa.Function, d int) bool {
+		if v, ok := wmemo[f]; ok {
+			return v
+		}
+		wmemo[f] = false
+		if f == nil || len(f.Blocks) == 0 || f.Pkg == nil || !strings.HasSuffix(f.Pkg.Pkg.Path(), pkg) || d > 6 {
+			return false
+		}
+		r := false
+		forEachInstr(f, true, func(_ *ssa.Function, in ssa.Instruction) {
+			if isWrite(in) {
+				r = true
+			}
+			if ci, ok := in.(ssa.CallInstruction); ok {
+				if callee := ci.Common().StaticCallee(); callee != nil && writes(callee, d+1) {
+					r = true
+				}
+			}
+		})
+		wmemo[f] = r
+		return r
+	}
+	n := 0
+	ord := ordCounter{}
+	for _, fn := range c.PkgFuncs(pkg) {
+		if fn.Parent() != nil || fn.Signature.Recv() == nil || !strings.HasPrefix(shortTypeName(fn.Signature.Recv().Type()), "M") {
+			continue
+		}
+		forEachInstr(fn, false, func(_ *ssa.Function, in ssa.Instruction) {
+			call, ok := in.(*ssa.Call)
+			if !ok {
+				return
+			}
+			callee := call.Common().StaticCallee()
+			if callee == nil || !encodes(callee, 0) || isWrite(in) || writes(callee, 0) {
+				// a callee that encodes and writes is self-contained (judged on its own when it lies in mhttp2.go)
+				return
+			}
+			n++
+			bad := existsPathEdges(fn, in, isReturn, isWrite, func(from, to *ssa.BasicBlock) bool {
+				ifi, isIf := from.Instrs[len(from.Instrs)-1].(*ssa.If)
+				if !isIf {
+					return true
+				}
+				bo, isBO := ifi.Cond.(*ssa.BinOp)
+				if !isBO {
+					return true
+				}
+				// the error edge of this very call
+				if isErrOf(bo.X, call) && isNilConst(bo.Y) {
+					errEdge := from.Succs[0]
+					if bo.Op == token.EQL {
+						errEdge = from.Succs[1]
+					}
+					return to != errEdge
+				}
+				// the "block is empty" edge: len(block) > 0 false / len(block) == 0 true
+				if lc, isCall := bo.X.(*ssa.Call); isCall {
+					if b, isB := lc.Common().Value.(*ssa.Builtin); isB && b.Name() == "len" && isZero(bo.Y) {
+						switch bo.Op {
+						case token.GTR, token.NEQ:
+							return to != from.Succs[1]
+						case token.EQL:
+							return to != from.Succs[0]
+						}
+					}
+				}
+				return true
+			})
+			pos := in.Pos()
+			if bad != nil {
+				pos = nearestPos(bad)
+			}
+			c.Check("C18.W10", ord.next(fn, "encoded-block-written"), pos, bad == nil, "every path from the encoding to a return writes the block (or the encoding failed / the block is empty)", "a header block the connection's HPACK encoder has produced can be dropped without being written: the encoder's dynamic table already contains its fields, the peer's decoder never sees them, and every later header block on the connection may refer to entries the peer does not have (COMPRESSION_ERROR or silently different headers)")
+		})
+	}
+	if n < 4 {
+		c.Unresolved("C18.W10", fmt.Sprintf("uses of the connection HPACK encoder in methods of the M* types (found %d)", n))
+	}
+}
+
+// isErrOf: v is the last result of call, directly or through the spilled named result it was stored into in the
+// call's block.
+func isErrOf(v ssa.Value, call *ssa.Call) bool {
+	isRes := func(x ssa.Value) bool {
+		ex, ok := x.(*ssa.Extract)
+		return ok && ex.Tuple == ssa.Value(call)
+	}
+	if isRes(v) {
+		return true
+	}
+	ld, ok := v.(*ssa.UnOp)
+	if !ok || ld.Op != token.MUL {
+		return false
+	}
+	a, ok := ld.X.(*ssa.Alloc)
+	if !ok || ld.Block() != call.Block() {
+		return false
+	}
+	last := ssa.Value(nil)
+	for _, in := range call.Block().Instrs {
+		if in == ssa.Instruction(ld) {
+			break
+		}
+		if st, isSt := in.(*ssa.Store); isSt && st.Addr == ssa.Value(a) {
+			last = st.Val
+		}
+	}
+	return last != nil && isRes(last)
+}
